@@ -158,9 +158,13 @@ func (t *tree) beginTag() ast.Node {
 	case itemCall:
 		return t.parseCall(token)
 	case itemLiteral:
-		t.expect(itemRightDelim, "literal")
-		literalText := t.expect(itemText, "literal")
-		n := &ast.RawTextNode{literalText.pos, []byte(literalText.val)}
+		var open = t.expect(itemRightDelim, "literal")
+		// an empty {literal}{/literal} has no text token
+		var n = &ast.RawTextNode{open.pos, nil}
+		if t.peek().typ == itemText {
+			var literalText = t.next()
+			n = &ast.RawTextNode{literalText.pos, []byte(literalText.val)}
+		}
 		t.expect(itemLeftDelim, "literal")
 		t.expect(itemLiteralEnd, "literal")
 		t.expect(itemRightDelim, "literal")
